@@ -793,6 +793,7 @@ def c19(facts, tier):
                  "N/2^ceil(log2 k), multiplication by N/2^l, zeros elsewhere), that the generated automorphism key set "
                  "covers the elements used, the CKKS error bound.")
     r_lwepair.run(facts, rep)
+    r_lwepair.run_levels(facts, rep)
     ents = [p for p in facts.items if p.startswith("app::lwe::") and facts.items[p].get("vis") == "pub" and p in facts.hir]
     repstate(facts, rep, ents, 40)
     r_loop.run(facts, rep, {"src/app/lwe.rs"}, level_walk=False)
